@@ -6,6 +6,7 @@ Model: `buildDA` (tie K-build: `num_states` equal on every case) + the evaluated
 -/
 import Daac.Proofs.BuildCor
 import Daac.Proofs.Stats2
+import Daac.Model.Stats
 namespace Daac.Props.C15
 open Daac
 variable {V : Type}
@@ -57,5 +58,18 @@ theorem num_elements_ge (variant : Variant) (nfb kind : Nat) (P : List (LPat V))
     (hlabels : variant = .bytewise → ∀ p ∈ P, ∀ c ∈ p.key, c < 256) :
     da.numStates ≤ da.states.size :=
   num_elements_ge_num_states variant nfb kind P da hb hk hlabels
+
+/-- The reported heap size is at least `size_of::<State>()` bytes per reported state — the
+documented 12 bytes per state for the byte-wise automaton — whatever the outputs and the mapper
+add. All kinds, both variants, every `num_free_blocks`. -/
+theorem heap_bytes_ge (variant : Variant) (nfb kind : Nat) (P : List (LPat V)) (da : DA V)
+    (hb : buildDA variant ⟨kind, nfb⟩ P = .ok da) (hk : keysOk P)
+    (hlabels : variant = .bytewise → ∀ p ∈ P, ∀ c ∈ p.key, c < 256) (szSt szOut : Nat) :
+    da.numStates * szSt ≤ da.heapBytes szSt szOut ∧ da.numStates ≤ da.numElements := by
+  have h := num_elements_ge_num_states variant nfb kind P da hb hk hlabels
+  refine ⟨?_, h⟩
+  have := Nat.mul_le_mul_right szSt h
+  unfold DA.heapBytes
+  split <;> omega
 
 end Daac.Props.C15
